@@ -49,7 +49,7 @@ pub fn run(ctx: &Ctx, rep: &mut Report) {
             };
             // the ledger clock never goes backwards
             let t = target.max(now);
-            u.set_time(t);
+            u.advance_to_time(t);
             let cand = gen_wellformed_set(&mut rng, &mut ring, 3);
             let newest = g.model.sets.last().unwrap().clone();
             let dh = cand.rotation_data_hash();
@@ -96,7 +96,7 @@ pub fn run(ctx: &Ctx, rep: &mut Report) {
             let want = t - last >= delay;
             let gref = &g;
             let o = u.probe(|u| {
-                u.set_time(t);
+                u.advance_to_time(t);
                 gref.do_rotate(u, &cand, &plan, false, Auth::Nobody)
             });
             rep.eval(label, &format!("{}|d={}|{}|{}", label, delay.min(101), want, o.ok()), true);
